@@ -279,3 +279,63 @@ def do_api_history_case(req):
 
 
 HANDLERS = {'api_history_ops': do_api_history_ops, 'api_history_case': do_api_history_case}
+
+
+# ------------------------------------------------------------------------------ command line (bounded refute mode)
+def do_cli_case(req):
+    """the listing commands of the command-line entry point over a small dump file, against PyKdebugParser configured by hand"""
+    import io
+    import itertools
+    import tempfile
+    from click.testing import CliRunner
+    from pykdebugparser.__main__ import cli
+    D = dumps()
+    tmp = tempfile.NamedTemporaryFile(suffix='.kdebug', delete=False)
+    tmp.write(D['A'] + D['B'][0x120 + 64:])        # one version-2 dump holding the records of both sample dumps
+    tmp.close()
+    blob = open(tmp.name, 'rb').read()
+    cases = []
+    for count in (-1, 0, 2):
+        for tid in (None, 5, 77):
+            cases.append(('kevents', 'formatted_kevents', {'count': count, 'tid': tid, 'show_tid': tid is None, 'cf': [4], 'sf': []}))
+            cases.append(('kevents', 'formatted_kevents', {'count': count, 'tid': tid, 'show_tid': False, 'cf': [], 'sf': [0x040c]}))
+            cases.append(('traces', 'formatted_traces', {'count': count, 'tid': tid, 'show_tid': True, 'cf': [4, 7], 'sf': [], 'process': None}))
+            cases.append(('traces', 'formatted_traces', {'count': count, 'tid': tid, 'show_tid': False, 'cf': [], 'sf': [], 'process': 'launchd'}))
+            cases.append(('callstacks', 'formatted_callstacks', {'count': count, 'tid': tid, 'show_tid': True, 'process': None}))
+            cases.append(('callstacks', 'formatted_callstacks', {'count': count, 'tid': tid, 'show_tid': False, 'process': '10'}))
+    try:
+        for cmd, meth, o in cases:
+            args = [cmd, tmp.name, '--count', str(o['count'])]
+            if o.get('tid') is not None:
+                args += ['--tid', str(o['tid'])]
+            if o.get('process') is not None:
+                args += ['--process', o['process']]
+            args += ['--show-tid' if o['show_tid'] else '--no-show-tid']
+            for c in o.get('cf', []):
+                args += ['-cf', str(c)]
+            for c in o.get('sf', []):
+                args += ['-sf', hex(c)]
+            if cmd == 'traces':
+                args += ['--no-color']
+            res = CliRunner().invoke(cli, args)
+            got = res.output.splitlines()
+            p = _pk()
+            p.filter_tid, p.show_tid = o.get('tid'), o['show_tid']
+            if 'process' in o:
+                p.filter_process = o['process']
+            if 'cf' in o:
+                p.filter_class, p.filter_subclass = list(o['cf']), list(o['sf'])
+            want = []
+            for ln in itertools.islice(getattr(p, meth)(io.BytesIO(blob)), o['count'] if o['count'] >= 0 else None):
+                want += str(ln).splitlines()
+            if res.exception is not None and not isinstance(res.exception, SystemExit):
+                return {'violates': True, 'what': 'command line %r raised %r' % (args[:1] + args[2:], res.exception)}
+            if got != want:
+                return {'violates': True, 'what': 'command line %r prints %d lines %r; the parser configured with these options lists %d: %r'
+                                                  % (args[:1] + args[2:], len(got), got[:3], len(want), want[:3])}
+    finally:
+        os.unlink(tmp.name)
+    return {'violates': False, 'cases': len(cases)}
+
+
+HANDLERS['cli_case'] = do_cli_case
